@@ -18,6 +18,8 @@ pub struct InstGraph {
     pub wd: i64,
     pub ext: Vec<usize>,
     pub d: usize,
+    /// weights given directly as doubles (re-weighted instances); overrides w / wd
+    pub wf: Option<Vec<f64>>,
 }
 
 pub fn as_i64(v: &Value) -> i64 {
@@ -39,6 +41,7 @@ impl InstGraph {
             wd: as_i64(&g["wd"]),
             ext: arr(&g["ext"]).iter().map(as_usize).collect(),
             d: as_usize(&g["D"]),
+            wf: None,
         }
     }
     pub fn to_json(&self) -> Value {
@@ -50,11 +53,12 @@ impl InstGraph {
         self.edges.len()
     }
     pub fn weights(&self) -> Vec<f64> {
+        if let Some(w) = &self.wf { return w.clone(); }
         self.w.iter().map(|&w| w as f64 / self.wd as f64).collect()
     }
     /// weights are exactly representable and all sums exact (wd a power of two)
     pub fn exact_weights(&self) -> bool {
-        (self.wd as u64).is_power_of_two()
+        self.wf.is_none() && (self.wd as u64).is_power_of_two()
     }
     /// Map spec labels injectively to arbitrary u8 labels (identity-1 when `plain`).
     pub fn label_map(&self, rng: &mut impl Rng, plain: bool) -> Vec<u8> {
